@@ -578,8 +578,13 @@ def stack(arrays, /, *, axis=0):
     if not arrays:
         raise ValueError("Need array(s) to stack")
 
-    # TODO: check arrays all have same shape
-    # TODO: unify chunks
+    if len({a.shape for a in arrays}) > 1:
+        raise ValueError("all input arrays must have the same shape")
+
+    if len({a.chunks for a in arrays}) > 1:
+        # unify chunks so that corresponding blocks have the same extent
+        inds = tuple(range(arrays[0].ndim))
+        _, arrays = unify_chunks(*chain(*[(a, inds) for a in arrays]))
 
     a = arrays[0]
 
